@@ -87,6 +87,18 @@ Section Pipeline.
     - apply on_data_total.
   Qed.
 
+  (* the per-packet tasks of a whole delivery sequence, one after the other *)
+  Definition receive_all cfg (ps : list (N * bytes)) (s : state) : res state :=
+    fold_left (fun r p => do s0 <- r ;; receive state on_interest on_data on_nack cfg (fst p) (snd p) s0) ps (Ok s).
+
+  Theorem receive_all_total cfg : cfg_okb cfg = true ->
+    forall ps s, exists s', receive_all cfg ps s = Ok s'.
+  Proof.
+    intros Hcfg ps. unfold receive_all. induction ps as [|p ps IH]; intros s; cbn [fold_left].
+    - exists s. reflexivity.
+    - cbn [bind]. destruct (receive_total cfg Hcfg (fst p) (snd p) s) as [s1 ->]. apply IH.
+  Qed.
+
   (* a dropped packet leaves the tables untouched (no hypothesis on the handlers needed) *)
   Theorem receive_frame cfg typ data site s :
     classify cfg typ data = ADrop site -> receive state on_interest on_data on_nack cfg typ data s = Ok s.
